@@ -7,6 +7,7 @@ from typing import Any, ClassVar
 
 from tree_sitter import Node
 
+from nix_manipulator.expressions.points import point_row
 from nix_manipulator.expressions.assertion import Assertion
 from nix_manipulator.expressions.binding import Binding
 from nix_manipulator.expressions.expression import NixExpression
@@ -122,7 +123,7 @@ class NixSourceCode:
                 """Inline comments stay on the previous expression line."""
                 return (
                     prev is not None
-                    and comment_node.start_point.row == prev.end_point.row
+                    and point_row(comment_node.start_point) == point_row(prev.end_point)
                     and bool(items)
                 )
 
